@@ -158,7 +158,7 @@ def _olc_scan_roots(m):
 POINT = 'olc_db get / insert / remove and everything they call'
 SCAN = 'olc_db iterator and scan functions and everything they call'
 
-def simd_axis_sse(ctx, tier, olc_only=False):
+def simd_axis_sse(ctx, tier, olc_only=False, fns=None):
     """the vectorised node searches in the SSE4.2 build (the per-configuration rule lists run on the AVX2 baseline): the same
     specification must be met by the code compiled without -mavx2"""
     from .report import RuleResult
@@ -167,7 +167,7 @@ def simd_axis_sse(ctx, tier, olc_only=False):
     ctx.ensure(names)
     for n in names:
         cfg = ctx.config(n)
-        for fn in (slot.slot1, find.find1, find.ord1):
+        for fn in (fns or (slot.slot1, find.find1, find.ord1)):
             r = fn(cfg)
             if olc_only:
                 r.findings = [x for x in r.findings if _is_olc_sig(x.fn_sig)]
@@ -199,12 +199,13 @@ PROPERTIES['C01'] = {
 PROPERTIES['C02'] = {
     'level': 'other',
     'configs': two,
-    'rules': [R(seq.cmp1), R(enc.cmp_shape), R(seq.cmp3), R(seq.iter1), R(enum1.enum1), R(iterrules.iter2), R(iterrules.iter3), R(iterrules.iter4), R(iterrules.iter5), R(lambda cfg: point.desc1(cfg, which='seek')), R(iterrules.vis1), R(iterrules.stack1), R(iterrules.iter6), R(lambda cfg: point.type1(cfg, which='scan')), R(lambda cfg: enc.enc6(cfg, classes=KEYBUF)), R(lambda cfg: enc.enc7(cfg, classes=KEYBUF)), advisory(R(iterrules.sib1))],
+    'multi_rules': [R(lambda ctx, tier: simd_axis_sse(ctx, tier, fns=(find.ord1,)))],
+    'rules': [R(seq.cmp1), R(enc.cmp_shape), R(seq.cmp3), R(seq.iter1), R(enum1.enum1), R(iterrules.iter2), R(iterrules.iter3), R(iterrules.iter4), R(iterrules.iter5), R(lambda cfg: point.desc1(cfg, which='seek')), R(iterrules.vis1), R(iterrules.stack1), R(iterrules.iter6), R(find.ord1), R(point.pair1), R(lambda cfg: point.type1(cfg, which='scan')), R(lambda cfg: enc.enc6(cfg, classes=KEYBUF)), R(lambda cfg: enc.enc7(cfg, classes=KEYBUF)), advisory(R(iterrules.sib1))],
     'technique': 'static analysis: forward dataflow over event-CFGs (comparator operands, sibling-step consistency), scan-descriptor extraction per node-class enumeration method compared with a semantics table, must-pass-through rule for the fall-off branch of seek, path-class differencing of the db and olc_db iterators',
     'explanation': 'Static necessary conditions of "scans visit exactly the interval, in order", decided on the clang-instantiated code of db, mutex_db and olc_db for both key kinds: '
                    'CMP-1 every byte comparator is applied to key bytes, never to the object representation of a pointer-carrying object; CMP-2 detail::compare is memcmp over the common length, then shorter-first on a tie (evaluated for all sign / length cases); CMP-3 every three-way key comparison (art_key / leaf / iterator cmp) takes its result from the byte-wise comparator or another cmp, never from relational operators on the byte-swapped key word; '
                    'ITER-1 when an iterator function computes a sibling with next/prior/gte_key_byte/lte_key_byte and the answer holds a value, the child it descends into is the one the answer names; '
-                   'ENUM-1 each of the 96 per-node enumeration methods (begin/last/next/prior/gte_key_byte/lte_key_byte x 4 node classes x instantiations) is summarised by a scan descriptor (start, direction, bound, predicate, returned slot) and compared with the ART semantics table; '
+                   'ORD-1 / PAIR-1 (what ordered enumeration rests on) the dense classes insert at the rank of the new key byte in UNSIGNED byte order (a signed vector comparison applied to raw key bytes is reported as such; AVX2 and SSE4.2 builds) and move keys and children in lock-step, so the key array of every I4 / I16 is sorted and slot i of keys describes slot i of children; ENUM-1 each of the 96 per-node enumeration methods (begin/last/next/prior/gte_key_byte/lte_key_byte x 4 node classes x instantiations) is summarised by a scan descriptor (start, direction, bound, predicate, returned slot) and compared with the ART semantics table; a start index that passes through a conversion too narrow for its range (child index + 1 in 8 bits for the 256-slot classes) is reported as wrapping; '
                    'ITER-2 the scan drivers position with first / seek(fwd) resp. last / seek(rev), step with next resp. prior, stop at cmp(to) < 0 resp. > 0 (from inclusive, to exclusive), call the visitor once per entry and halt when it asks; '
                    'ITER-3 when seek falls off an inner node (no child at/after resp. at/before the key byte) the first stack operation is the sibling step on the parent entry, never a pop; ITER-4 direction table: forward functions use forward primitives only and vice versa, and in seek every primitive sits under the direction flag and comparison sign the table demands (an opposite-direction descent is followed by a step in the seek direction); ITER-5 net stack effect of the step functions (replace the parent entry before a descent, remove exactly one entry otherwise); DESC-1 (seek) the descent of seek consumes the key consistently; VIS-1 the visitor is shown the key / value of the leaf on top of the iterator stack; TYPE-1 the iterator functions reinterpret a node pointer as a leaf exactly where its tag was tested LEAF; ITER-6 first / last / seek reset the iterator (invalidate()) before anything is pushed, on every path; STACK-1 the stack primitives push / push_leaf / pop (try_push / try_push_leaf in olc_db) pass a std::stack push resp. pop on every path (ITER-5 counts calls of them); ENC-6 / ENC-7 (key_buffer part) the key buffer the iterator keeps in step with its stack (written on every push) reserves before it appends (one byte: ensure_available(1) then buf[off++] = v; a span: ensure_available(n), memcpy(buf + off, data, n), off += n), pop(n) is off -= n, the view handed out is (buf, off), and the growth helper keeps the bytes already there; SIB-1 (ADVISORY only, evidence notes, never the verdict) the db and olc_db iterators make the same algorithmic decisions once lock events are projected away.',
     'decides': 'address independence of comparisons; sibling-step consistency; per-node ordered enumeration; bound handling of the scan drivers; seek fall-off; db/olc agreement',
